@@ -200,6 +200,19 @@ func ruleScoSwap(c *Ctx, r *R) {
 				body = j
 			}
 		}
+		begin, end := -1, -1
+		for j, e := range p.Eff {
+			if e.Kind == "call" && e.Value != nil {
+				if e.Value.Name == "compiler.Begin" && begin < 0 && j > fresh {
+					begin = j
+				}
+				if e.Value.Name == "compiler.End" {
+					end = j
+				}
+			}
+		}
+		r.check(begin > fresh && begin < body && end > body && end < rest, key+" scope", c.Pos(clause), "the function's scope is opened after the fresh table is installed and closed before the caller's table is restored",
+			"the func case opens or closes the function's scope against the wrong locals table (Begin before the fresh table is installed, or End after the caller's table is restored): End then drops the enclosing function's names, so its locals stop shadowing globals and imports")
 		r.check(restored && fresh >= 0 && body > fresh && rest > body, key+" locals", c.Pos(clause), "c.Locals: saved, fresh table before the body, restored after",
 			"the func case does not compile the body against a fresh locals table and restore the caller's table afterwards: the function's locals collide with the enclosing function's slots, or the enclosing function loses its names")
 		// Returns pushed then popped
